@@ -97,7 +97,10 @@ func (r *partialLengthReader) Read(p []byte) (n int, err error) {
 
 	n, err = r.r.Read(p[:int(toRead)])
 	r.remaining -= int64(n)
-	if n < int(toRead) && err == io.EOF {
+	if err == io.EOF && (r.remaining > 0 || r.isPartial) {
+		// The underlying reader may deliver its last bytes together with
+		// io.EOF: the packet is cut short unless this was the end of the
+		// final chunk.
 		err = io.ErrUnexpectedEOF
 	}
 	return
